@@ -27,7 +27,7 @@ pub fn profile(name: &str) -> Profile {
         "C07" => Profile { name: "C07", w: [16, 1, 1, 3, 3, 26, 20, 18, 4, 1, 0, 6, 0, 0], keys: (1, 3), ttl_pct: 25, cas_pct: 20, quiet_pct: 20, numeric_pct: 85, ..base },
         "C08" => Profile { name: "C08", w: [22, 3, 3, 2, 2, 3, 2, 24, 16, 10, 0, 14, 0, 0], keys: (3, 6), ttl_pct: 40, cas_pct: 35, quiet_pct: 20, numeric_pct: 20, ..base },
         "C11" => Profile { name: "C11", w: [12, 6, 6, 6, 6, 8, 6, 20, 6, 3, 8, 6, 4, 3], keys: (2, 4), ttl_pct: 30, cas_pct: 35, quiet_pct: 30, numeric_pct: 40, ..base },
-        "C19" => Profile { name: "C19", w: [14, 7, 7, 7, 7, 8, 6, 20, 8, 4, 0, 10, 0, 0], keys: (2, 4), ttl_pct: 30, cas_pct: 25, quiet_pct: 50, numeric_pct: 40, ..base },
+        "C19" => Profile { name: "C19", w: [14, 7, 7, 7, 7, 8, 6, 20, 8, 4, 4, 10, 0, 0], keys: (2, 4), ttl_pct: 30, cas_pct: 25, quiet_pct: 50, numeric_pct: 40, ..base },
         "C20" => Profile { name: "C20", w: [16, 6, 6, 7, 6, 8, 6, 18, 9, 6, 1, 10, 1, 1], keys: (2, 5), ttl_pct: 30, cas_pct: 25, quiet_pct: 25, numeric_pct: 30, ..base },
         "C14" => Profile { name: "C14", w: [30, 5, 5, 6, 5, 7, 4, 14, 8, 2, 0, 8, 0, 0], keys: (3, 8), ttl_pct: 20, cas_pct: 15, quiet_pct: 20, numeric_pct: 15, len: (10, 60), ..base },
         "C15" => Profile { name: "C15", w: [22, 6, 6, 8, 6, 10, 6, 16, 10, 3, 0, 8, 0, 0], keys: (2, 5), ttl_pct: 25, cas_pct: 25, quiet_pct: 20, numeric_pct: 30, len: (40, 120), ..base },
@@ -219,7 +219,13 @@ impl GenState {
                 };
                 wire::flush(q(op::FLUSH, op::FLUSHQ), d, opaque)
             }
-            10 => wire::bare(*rng.pick(&[op::NOOP, op::VERSION, op::STAT]), opaque),
+            10 => {
+                let mut f = wire::bare(*rng.pick(&[op::NOOP, op::VERSION, op::STAT, op::STAT]), opaque);
+                if f.opcode == op::STAT && rng.chance(1, 2) {
+                    f.key = rng.pick(&[&b"items"[..], &b"slabs"[..], &b"settings"[..]]).to_vec();
+                }
+                f
+            }
             11 => {
                 // clock advance: boundary-directed when a deadline is known
                 let dl: Vec<u64> = self.info.values().filter_map(|i| i.deadline).filter(|d| *d + 1 >= self.now).collect();
